@@ -92,21 +92,36 @@ def run(ck: Checker):
              'the miter starts as a copy of the left circuit in a named block (inputs in the left circuit\'s order)', f'`{norm(mit)}`', construct='build_miter: add left')
     ln_name = fn.args.kwonlyargs[0].arg
     rn_name = fn.args.kwonlyargs[1].arg
-    conns = [c for c in calls_in(fn, 'connect_circuit') if norm(c.func.value) == mv]
-    ck.need(len(conns) == 2, f'{m.rel}: expected two connect_circuit calls on the miter')
-    k1 = {k: norm(v) for k, v in kwargs_of(conns[0], cc).items()}
-    ck.check(k1.get('other') == r and k1.get('this_connectors') == f'{mv}.get_block({ln_name}).inputs' and k1.get('other_connectors') == f'{r}.inputs'
-             and k1.get('right_connect', 'False') == 'False' and k1.get('name') == rn_name, 'C13.WIRE', m, conns[0],
-             'the right circuit\'s inputs are fed, in order, by the left block\'s inputs', f'arguments {k1}', construct='build_miter: connect right circuit')
-    k2 = {k: norm(v) for k, v in kwargs_of(conns[1], cc).items()}
-    px = k2.get('other')
-    px_def = deref(fn, ast.Name(px)) if px else None
-    if isinstance(px_def, ast.Name):
-        px_def = None
-    ck.check(px_def is not None and norm(px_def) == f'generate_pairwise_xor({l}.output_size)'
-             and k2.get('this_connectors') == f'{mv}.get_block({ln_name}).outputs + {mv}.get_block({rn_name}).outputs'
-             and k2.get('other_connectors') == f'{px}.inputs' and k2.get('right_connect', 'False') == 'False', 'C13.WIRE', m, conns[1],
-             'the xor block receives all left outputs then all right outputs against its inputs', f'arguments {k2}', construct='build_miter: connect pairwise xor')
+    # every call that attaches a circuit to the miter, with its arguments resolved against the callee's signature
+    attach = []
+    for c in calls_in(fn):
+        if isinstance(c.func, ast.Attribute) and norm(c.func.value) == mv and call_name(c) in ('connect_circuit', 'extend_circuit', 'left_connect_circuit', 'right_connect_circuit'):
+            sig = circ.func(f'Circuit.{call_name(c)}')
+            kwv = kwargs_of(c, sig)
+            other = kwv.get('other', kwv.get('circuit'))
+            od = other
+            if isinstance(other, ast.Name):
+                d = deref(fn, other)
+                od = d if d is not None and not isinstance(d, ast.Name) else other
+            attach.append((c, call_name(c), {k: norm(v) for k, v in kwv.items()}, norm(other) if other is not None else None, norm(od) if od is not None else None))
+    ck.need(attach, f'{m.rel}: build_miter attaches nothing to the miter (shape changed)')
+    rights = [x for x in attach if x[3] == r]
+    k1 = rights[0][2] if rights else {}
+    ck.check(len(rights) == 1 and rights[0][1] == 'connect_circuit' and k1.get('this_connectors') == f'{mv}.get_block({ln_name}).inputs' and k1.get('other_connectors') == f'{r}.inputs'
+             and k1.get('right_connect', 'False') == 'False' and k1.get('name') == rn_name, 'C13.WIRE', m, rights[0][0] if rights else fn,
+             'the right circuit\'s inputs are fed, in order, by the left block\'s inputs', f'arguments {k1}' if rights else 'no call attaches the right circuit', construct='build_miter: connect right circuit')
+    xors = [x for x in attach if x[4] == f'generate_pairwise_xor({l}.output_size)']
+    k2 = xors[0][2] if xors else {}
+    px = xors[0][3] if xors else None
+    want_this = f'{mv}.get_block({ln_name}).outputs + {mv}.get_block({rn_name}).outputs'
+    if xors and k2.get('this_connectors') in (None, 'None'):
+        why = (f'`{norm(xors[0][0])[:110]}` passes no connectors: they default to the miter\'s current outputs, which omit every output that is an input or was used as a connector; '
+               'circuits with a pass-through output can no longer be compared')
+    else:
+        why = f'arguments {k2}' if xors else 'no call attaches generate_pairwise_xor(left.output_size)'
+    ck.check(len(xors) == 1 and k2.get('this_connectors') == want_this and k2.get('other_connectors') in (f'{px}.inputs',) and k2.get('right_connect', 'False') == 'False',
+             'C13.WIRE', m, xors[0][0] if xors else fn, 'the xor block receives all left outputs then all right outputs (as recorded in the two blocks) against its inputs', why, construct='build_miter: connect pairwise xor')
+    ck.check(len(attach) == 2, 'C13.WIRE', m, fn, 'nothing else is attached to the miter', f'{len(attach)} attaching calls: {[norm(x[0])[:60] for x in attach]}', construct='build_miter: attached circuits')
     # generate_pairwise_xor declares inputs x then y and xors x[i] with y[i]
     g = repo.mod(GEN)
     gp = g.func('generate_pairwise_xor')
